@@ -80,6 +80,8 @@ def run_impl(bins, lines, pid_of_line, timeout=600):
             except Exception: res = ""
         res = (res or "").split("\n")
         if res and res[-1] == "": res.pop()
+        # the trrel provider prints a debugging line to STDOUT whenever its no-index view is iterated (byods/ascent-byods-rels/src/trrel_binary_ind.rs:381): not an answer of the harness
+        res = [l for l in res if not l.startswith("iterating TrRelIndNone.")]
         for j, i in enumerate(idxs):
             out[i] = res[j] if j < len(res) else ("no-output(hang)" if hung else "no-output(crash)")
     ths = [threading.Thread(target=feed, args=pi) for pi in procs]
